@@ -51,12 +51,30 @@ fn iso_strategy() -> impl Strategy<Value = Iso> {
         proptest::collection::vec(any::<u16>(), 8),
         any::<u64>(),
         proptest::sample::select(&[10u64, 60, 120][..]),
+        0usize..3,
     )
-        .prop_map(|((na, nb, a_amountless, b_amountless, splits), (a_ok, b_ok, a_parts, b_funded, a_funded, b_parts), (k, _), shuffle, seed, mpp)| {
+        .prop_map(|((na, nb, a_amountless, b_amountless, splits), (a_ok, b_ok, a_parts, b_funded, a_funded, b_parts), (k, _), shuffle, seed, mpp, a_rejecting)| {
             let cfg = Cfg { mpp_timeout_s: mpp, ..Cfg::default() };
             let pa = PaymentSpec { preimage: 0x11, invoice_amount: if a_amountless { None } else { Some(1_000_000) }, tlv_amount: 777_000, hints: Hints::None, explicit_payee: false, recipient_ok: a_ok, drain_parts: a_parts };
             let pb = PaymentSpec { preimage: 0x22, invoice_amount: if b_amountless { None } else { Some(2_000_000) }, tlv_amount: 555_000, hints: Hints::Other, explicit_payee: true, recipient_ok: b_ok, drain_parts: b_parts };
             let mut htlcs = well_formed_set(&cfg, 0, &pa, na, a_funded, 1000, &splits[..3]);
+            // A (only A) may also receive late HTLCs that are rejected for two reasons at once
+            // (relative expiry too low AND declared total too low)
+            for i in 0..a_rejecting {
+                htlcs.push(HtlcSpec {
+                    pay: 0,
+                    hash_of: None,
+                    amount_msat: 1000 + i as u64,
+                    total_msat: Some(1),
+                    forward_msat: Some(1000),
+                    cltv_expiry: 1000 + 10,
+                    cltv_rel: 10,
+                    forward: false,
+                    meta: Meta::Normal,
+                    extra: vec![],
+                    raw_payload: None,
+                });
+            }
             htlcs.extend(well_formed_set(&cfg, 1, &pb, nb, b_funded, 1000, &splits[3..]));
             let n = htlcs.len();
             for (i, s) in shuffle.iter().enumerate() {
